@@ -223,6 +223,16 @@ theorem closeFd_sync (s : State) (f : Nat) (ro : Bool) (hs : SyncInv s) : SyncIn
       · simp [hgf, hro]
       · simpa [hgf] using S.isOpen g
 
+theorem condFd_k (s : State) (f c : Nat) : KProv s (condFd s f c).1 := by
+  unfold condFd
+  repeat' split
+  all_goals first | exact KProv.refl s | exact KProv.of_same rfl rfl rfl rfl rfl (fun _ h => h)
+
+/-- the fault injector leaves its mark: after `enableF` the ghost flag is set, whatever else happened -/
+theorem enableEvF_breach (s : State) (e : Nat) : (enableEvF s e).1.breach = true := by
+  show (enableEv (refuseAdd s (s.evs e).fd) e).1.breach = true
+  rw [(enableEv_k (refuseAdd s (s.evs e).fd) e).breach]; rfl
+
 theorem act_sync (s : State) (a : Act) (h : Inv s) (hs : SyncInv s) : SyncInv (act s a).1 := by
   cases a with
   | init e f m o => exact hs.step h (initEv_k s e f m o h)
@@ -236,6 +246,8 @@ theorem act_sync (s : State) (a : Act) (h : Inv s) (hs : SyncInv s) : SyncInv (a
   | oob f => exact hs.step h (setReady_k s f _ _ _)
   | arm k => exact hs
   | post k => exact hs
+  | cond f c => exact hs.step h (condFd_k s f c)
+  | enableF e => exact fun hb => absurd ((enableEvF_breach s e).symm.trans hb) (by simp)
 
 theorem runScript_sync (sc : List Act) : ∀ s : State, Inv s → SyncInv s → SyncInv (runScript s sc) := by
   induction sc with
@@ -300,6 +312,8 @@ theorem act_mono (s : State) (a : Act) (h : Inv s) (hb : (act s a).1.breach = fa
   | oob f => rw [← (setReady_k s f _ _ _).breach]; exact hb
   | arm k => exact hb
   | post k => exact hb
+  | cond f c => rw [← (condFd_k s f c).breach]; exact hb
+  | enableF e => exact absurd ((enableEvF_breach s e).symm.trans hb) (by simp)
 
 theorem runScript_mono (sc : List Act) : ∀ s : State, Inv s → (runScript s sc).breach = false → s.breach = false := by
   induction sc with
